@@ -12,6 +12,8 @@ import (
 	"verifh/ref"
 )
 
+var _ = ref.ArgPattern
+
 func argForm(v cfg.Val) string {
 	if !v.IsStr() {
 		return "literal:" + v.K
@@ -57,6 +59,34 @@ func TestC02(t *testing.T) {
 		behBatch(t, c, c02NonTrivial, c02Check, nil)
 		col.Label("regress")
 	}
+	// symbols of the container's own package that are named like the local variables of the generated
+	// constructor: legal, distinct, not predeclared identifiers
+	hostileFns := []string{"dependencyService", "dependencyValue", "dependencyTag", "dependencyProvider", "newService", "concatenateChunks", "paramTodo", "getEnv", "getEnvInt", "getParam", "callProvider"}
+	hostileVars := []string{"c", "s", "rootGontainer"}
+	idx := 0
+	for _, n := range append(append([]string{}, hostileFns...), hostileVars...) {
+		idx++
+		if !ev.Mine(idx) {
+			continue
+		}
+		isVar := n == "c" || n == "s" || n == "rootGontainer"
+		svc := cfg.Service{Name: "x", Ctor: sp(n), Args: []cfg.Val{cfg.Int(1)}}
+		if isVar {
+			svc = cfg.Service{Name: "x", Value: sp(n)}
+		}
+		conf := cfg.Config{Meta: cfg.Meta{Pkg: sp("app")}, Services: []cfg.Service{svc,
+			{Name: "y", Ctor: sp("NewObj"), Args: []cfg.Val{cfg.Str("@x"), cfg.Str("!value " + n)}}}}
+		if !isVar {
+			conf.Services[1].Args = conf.Services[1].Args[:1]
+		}
+		m := behMember{Files: []cfg.Config{conf}, Script: scriptAll(conf), Labels: []string{"own-package-symbol-named-like-a-template-local"}}
+		behBatch(t, behCase{Members: []behMember{m}}, func(behMember, cfg.Config) bool { return true }, func(t tb, bc behContext) {
+			if checkAgainstModel(t, bc, "template-local-shadows:"+n+"!") {
+				ev.Get().Label("matched-model")
+			}
+		}, nil)
+	}
+
 	batch := pick(20, 32)
 	setRapidChecks(pick(5, 50))
 	opts := behaviouralOpts()
